@@ -212,6 +212,13 @@ def run(oc, tier, seed):
             search -= 1
             if search <= 0:
                 break
+    # the tie of the page-level theorem (C05_zids_written_into_page) to the real `db create`
+    if not any(f[3] is None for f in oc.spec_fail):
+        from harness import pagewb
+        pagewb.run_zid(eng, random.Random(seed + 5), oc, 15 if tier == "quick" else 250)
+        oc.rule += ("; PAGE theorem tie: directories of abstract pages, `db create`: page_text = the text fed to the parser, "
+                    "changed lines = lines of ZID-less items, rewritten file = page_text (zidded zf pg) with zf read off the "
+                    "index, whenever zid_readyb holds")
     eng.close()
 
 
